@@ -10,6 +10,7 @@ import (
 
 func init() {
 	vRegister("H11_pool", H11_pool)
+	vRegister("H11_big", H11_big)
 	vRegister("H11_effects", H11_effects)
 	vRegister("H11_syn", H11_syn)
 	vRegister("H10_effects", H10_effects)
@@ -270,5 +271,65 @@ func H10_effects() {
 	syn, _ := vGenSynBatchFixed()
 	_, _, err = z.newWithChunkMode(syn, DefaultChunkMode)
 	vAssert(err == nil, "syn-build")
+	vUnshare()
+}
+
+// H11_big (C11's last sentence, reduction R1): a stored-field visit of a document whose stored section is
+// larger than 64 KiB writes only into memory it owns - in particular not into a buffer kept on the shared
+// segment, which a concurrent visit would overwrite while the first visitor is still looking at its bytes.
+// Natively: two goroutines visit two such documents concurrently and compare what they were handed.
+func H11_big() {
+	mkVal := func(seed uint32) []byte {
+		val := make([]byte, 70000)
+		x := seed
+		for i := range val {
+			x = x*1103515245 + 12345
+			val[i] = byte(x >> 16)
+		}
+		return val
+	}
+	v0, v1 := mkVal(7), mkVal(99)
+	docs := []index.Document{
+		&vDoc{id: "d0", fields: []index.Field{vIDField("d0"), vTextField("f", 1, []vTerm{{term: "a", freq: 1}}, index.IndexField|index.StoreField, v0, nil, 't')}},
+		&vDoc{id: "d1", fields: []index.Field{vIDField("d1"), vTextField("f", 1, []vTerm{{term: "a", freq: 1}}, index.IndexField|index.StoreField, v1, nil, 't')}},
+	}
+	var z ZapPlugin
+	segI, _, err := z.newWithChunkMode(docs, DefaultChunkMode)
+	vAssert(err == nil, "build")
+	var seg segment.Segment = segI
+	if vBool("reopen") {
+		vAssert(segI.(*SegmentBase).Persist(vP("big11.zap")) == nil, "persist")
+		seg, err = z.Open(vP("big11.zap"))
+		vAssert(err == nil, "open")
+	}
+	visit := func(d uint64, want []byte) bool {
+		ok := true
+		_ = seg.VisitStoredFields(d, func(field string, typ byte, value []byte, pos []uint64) bool {
+			if field == "f" {
+				ok = len(value) == len(want) && value[0] == want[0] && value[len(value)-1] == want[len(want)-1] && value[35000] == want[35000]
+			}
+			return true
+		})
+		return ok
+	}
+	if !vSymbolic() {
+		done := make(chan bool, 2)
+		for g := 0; g < 2; g++ {
+			go func(g int) {
+				ok := true
+				for i := 0; i < 300; i++ {
+					ok = ok && visit(uint64(g), [][]byte{v0, v1}[g])
+				}
+				done <- ok
+			}(g)
+		}
+		a, b := <-done, <-done
+		vAssert(a && b, "concurrent-visit-bytes")
+		return
+	}
+	vAssert(visit(0, v0), "warm-up") // (the first visit of a cold segment)
+	vShare(seg)
+	vAssert(visit(0, v0), "visit0")
+	vAssert(visit(1, v1), "visit1")
 	vUnshare()
 }
